@@ -15,7 +15,8 @@ EXPLANATION = (
     "mass); (4) Player 2 has no shrinking capability and the only clearing store is guarded by 'nobody points to "
     "this state', with the pointed-to set = {0} + every target of every state; (5) Solver.prune_paths applies "
     "the node filter to every Player-1 / probabilistic state of the whole list; (6) every write to next_states "
-    "after construction shrinks it (filter of itself, [], or a target-preserving map).")
+    "after construction shrinks it (filter of itself, [], or a target-preserving map)."
+    ' Also: no pruning method funnels its transitions through a dictionary keyed by a part of the transition (0:keyed).')
 ASSUMPTIONS = ["probabilities of a state sum to 1 (so 'divide by surviving mass' and 'divide by 1 - removed mass' agree)"]
 TECHNIQUE = "points-to/effect analysis for iterator invalidation + symbolic comprehension normal forms (ast)"
 
